@@ -91,6 +91,13 @@ Failed(n, ev) ==
           [] p = "RoutedStamped" ->          \* routed with a from that is not the sender's own address
                  n.appr # {} /\ \E i \in Idx(ev.vic) : ev.vic[i].k \in StanzaKinds /\ ~P_From(ev.vic[i].f, n.appr, n.res)}
 
+\* whose address was wrongly assigned / stamped (user part; "" = nobody's), for the report
+Who(p, n, ev) ==
+    CASE p = "IdentityApproved" -> (CHOOSE j \in Ids(ev) : ~P_Identity(j, n.appr)).u
+      [] p = "RoutedStamped" ->
+             ev.vic[CHOOSE i \in Idx(ev.vic) : ev.vic[i].k \in StanzaKinds /\ ~P_From(ev.vic[i].f, n.appr, n.res)].f.u
+      [] OTHER -> ""
+
 ResetStep(ev) ==
     /\ Reinit
     /\ cid' = ev.case /\ mon' = Mon0 /\ dflag' = FALSE /\ ncases' = ncases + 1
@@ -104,7 +111,8 @@ OpStep(ev) ==
     /\ \/ ModelAct(ev)
        \/ (~ENABLED ModelAct(ev)) /\ UNCHANGED vars
     /\ mon' = MonNext(mon, ev)
-    /\ viol' = viol \cup {[case |-> cid, line |-> l, prop |-> p, e |-> ev.e] : p \in Failed(MonNext(mon, ev), ev)}
+    /\ viol' = viol \cup {[case |-> cid, line |-> l, prop |-> p, e |-> ev.e, who |-> Who(p, MonNext(mon, ev), ev)] :
+                                p \in Failed(MonNext(mon, ev), ev)}
     /\ LET d == Proj' # Obs(ev) IN
         /\ dflag' = (dflag \/ d)
         /\ ndiv' = IF d /\ ~dflag THEN ndiv + 1 ELSE ndiv
